@@ -615,6 +615,19 @@ pub open spec fn ascending(s: Seq<&Tlv>) -> bool { forall|i: int, j: int| 0 <= i
 //@ensures P C14 the-extra-tlvs-of-a-final-payload-for-a-blinded-recipient-are-the-custom-tlvs-the-invoice-request-and-the-keysend-preimage-each-once-in-ascending-type-order
     ascending(r@), r@.len() == custom_tlvs.v@.len() + (if invoice_request_tlv.o is Some { 1int } else { 0int }) + (if keysend_tlv.o is Some { 1int } else { 0int }),
 //@end
+//@extract lightning/src/ln/msgs.rs :: impl Writeable for OutboundTrampolinePayload :: fn write
+//@slice R15
+    let $m:seq: Vec<&(u64, Vec<u8>)> = $chain:seq; $after:straight _encode_varint_length_prefixed_tlv!(
+//@with
+    fn extra_tlvs_of_a_final_trampoline_payload<'a>(custom_tlvs: &'a TlvList, keysend_tlv: &'a OptTlv) -> Vec<&'a Tlv> { let $m: Vec<&Tlv> = $chain; $after custom_tlvs }
+//@rw R8 ?
+    custom_tlvs.sort_unstable_by_key(|(typ, _)| *typ);
+//@with
+    sort_by_type(&mut custom_tlvs);
+//@ret r
+//@ensures P C14 the-extra-tlvs-of-a-final-trampoline-payload-are-the-custom-tlvs-and-the-keysend-preimage-each-once-in-ascending-type-order
+    ascending(r@), r@.len() == custom_tlvs.v@.len() + (if keysend_tlv.o is Some { 1int } else { 0int }),
+//@end
 }
 }
 fn main() {}
